@@ -173,6 +173,14 @@ def property_checks(inp):
                float(max(numpy.abs(cr - (math.cos(rot_) * c0 - math.sin(rot_) * s0)).max(), numpy.abs(sr - (math.sin(rot_) * c0 + math.cos(rot_) * s0)).max()) / sc_r), 1e-9))
         else:
             A(("m = 0 modes do not depend on the rotation (rot %g)" % rot_, float(numpy.abs(zk.zernike_nm(nr_, 0, N, rot_) - zk.zernike_nm(nr_, 0, N)).max()), 1e-12))
+    # the array functions pass the rotation on: each plane of zernikeArray(..., rot) is the single rotated mode, and the phase
+    # built from coefficients is the combination of the rotated modes
+    for rot_ in (0.3, -0.9):
+        Zr_ = zk.zernikeArray(J, N, rot=rot_)
+        single = numpy.array([zk.zernike_noll(j_ + 1, N, rot_) for j_ in range(J)])
+        A(("zernikeArray(count, rot) = the rotated single modes (rot %g)" % rot_, float(numpy.abs(Zr_ - single).max()), 0.0))
+        Zl_ = zk.zernikeArray(lst, N, rot=rot_)
+        A(("zernikeArray(list, rot) = the rotated single modes (rot %g)" % rot_, float(numpy.abs(Zl_ - numpy.array([zk.zernike_noll(j_, N, rot_) for j_ in lst])).max()), 0.0))
     co = npr.normal(size=J)
     A(("phase from coefficients is the linear combination", float(numpy.abs(zk.phaseFromZernikes(list(co), N) - numpy.tensordot(co, Zs, axes=1)).max()), 1e-12))
     # gamma matrices vs actual gradients (analytic modes on a fine grid, central differences in the interior)
